@@ -658,7 +658,10 @@ Varable failures: {var_failed}
             listed = [varliststr[i:i + 16].strip()
                       for i in range(0, len(varliststr), 16)]
         else:
+            # blank-separated (e.g., trailing blanks were stripped by
+            # another tool); names are appended at fixed width below
             listed = varliststr.split()
+            varliststr = ''.join([k.ljust(16) for k in listed])
         keys = [k for k in listed if k in self.variables]
         newkeys = set(varkeys).difference(keys + ['ETFLAG', 'TFLAG'])
         for varkey in varkeys:
